@@ -44,8 +44,12 @@ def unit_rac(eng):
         (".link 2000\na: nop\n", 0o2000), ("a: nop\n", 0o1000), (". = 3000\na: nop\n", 0o3000),
         (".link 1000 + e - s\ns: nop\nnop\ne: nop\n", 0o1004), (".link k\nk = 400 + <e - s> * 2\ns: .blkb 10\ne: nop\n", 0o420),
         (".link <e - s> _ 3\ns: .blkw 4\ne: nop\n", 0o100), (".link 4000 + <e-s>/2\ns: .blkb 20\ne:\n", 0o4010),
+        # via intermediate symbols defined BEFORE the labels (forward aliases), alone and mixed with direct labels (D22), coefficients other than 1
+        ("x = e\ny = s\n.link 1000 + x - y\nnop\ns: nop\nnop\ne: nop\n", 0o1004), ("x = e\n.link 1000 + x - s\nnop\ns: nop\nnop\ne: nop\n", 0o1004),
+        ("x = e\n.link 1000 + s - x\nnop\ns: nop\nnop\ne: nop\n", 0o774), ("x = e\ny = s\n.link 1000 + 3*x - 3*y\nnop\ns: nop\nnop\ne: nop\n", 0o1014),
+        ("x = e\ny = s + 2\n.link 2000 - x + y\nnop\ns: nop\nnop\ne: nop\n", 0o1776),
     ]
-    bad_progs = [".link a\na: nop\n", ".link 100\n.link 200\nnop\n", ".link s + 2\ns: nop\n", ".link 1000\n.blkb 10\n. = 1004\nnop\n"]
+    bad_progs = ["x = e\n.link 1000 + x + s\nnop\ns: nop\ne: nop\n", "x = e\n.link x\nnop\ne: nop\n", ".link a\na: nop\n", ".link 100\n.link 200\nnop\n", ".link s + 2\ns: nop\n", ".link 1000\n.blkb 10\n. = 1004\nnop\n"]
     jobs = [{"kind": "asm", "sources": [p]} for p, _ in progs] + [{"kind": "asm", "sources": [p]} for p in bad_progs]
     res = driver.native(jobs, driver.tree_root())
     bad = []
@@ -99,6 +103,10 @@ def canary(eng):
 def replay(o, tree):
     label = o.get("label", "")
     unit = o.get("unit", "")
+    if (o.get("cfg") or {}).get("kind") == "poly-nested":
+        return deferred_c.replay_poly_nested(o["cfg"], o.get("witness") or {}, tree)
+    if (o.get("cfg") or {}).get("kind") == "poly-selfref":
+        return deferred_c.replay_poly_selfref(o["cfg"], o.get("witness") or {}, tree)
     if "late binding" in label:
         from contracts import c02
         return c02.replay(o, tree)
